@@ -205,6 +205,16 @@ Definition surf_exit (s : sstate) : sresult :=
 Definition run_surface (a : raw) (ops : list sop) : res sresult :=
   s <- foldM sstep ops (surf_enter a) ;; Ok (surf_exit s).
 
+(* Do the connectivity answers of the argument object describe its own element lists afterwards?
+   If its connectivity had been queried before the block, its tables (corner ids per vertex) were computed from the
+   input faces and are read against its current corner container; otherwise they are computed on demand from its
+   current corner container and faces. *)
+Definition faces_eqb (a b : list (list Z)) : bool := list_eqb lz_eqb a b.
+Definition corn_eqb (a b : list (Z * Z)) : bool := list_eqb edge_eqb a b.
+Definition arg_conn_ok (queried : bool) (a0 : raw) (a : argobj) : bool :=
+  if queried then faces_eqb (aF a) (rf a0) && (Zlen (aV a) =? Zlen (rv a0)) && corn_eqb (aCorn a) (corners (rf a0))
+  else corn_eqb (aCorn a) (corners (aF a)).
+
 (* ------------------------------------------------------------------ split_double_boundary_edges_triangles *)
 Definition degrees (nV : Z) (es : list edge) : list Z :=
   map (fun v => Zlen (filter (fun e => fst e =? v) es) + Zlen (filter (fun e => snd e =? v) es)) (zrange nV).
